@@ -697,9 +697,28 @@ func TestPropChainStateRoot(t *testing.T) {
 				} else {
 					want = b.Post.Commitment(b.B.ProtocolVersion)
 				}
+				var altFor *gen.Block
+				if plan == nil && rapid.IntRange(0, 2).Draw(rt, "abandonedCandidate") == 0 {
+					altFor = ch.Fork(i).Draw(rt)
+					c.Label("abandoned-candidate-simulated-before-the-block")
+					c.Fp("abandoned %s", diffFp(altFor.SU.StateDiff))
+				}
 				for _, n := range fin {
 					if forceReopen {
 						n.Reopen()
+					}
+					// a dropped proposal: in a third of the (ordinary-size) blocks a DIFFERENT candidate for this height, built on the
+					// same prefix, is simulated first and then abandoned (the block builder does this for every consensus proposal
+					// that is not decided); nothing of it may reach the tries the real block is then applied to
+					if plan == nil && altFor != nil {
+						ab := cloneForFinalise(altFor, n)
+						if _, err := n.BC.Simulate(ab.B, ab.SU, altFor.Classes, nil); err != nil {
+							c.Violation("simulate-"+n.Backend(), "Simulate of an abandoned candidate for block %d: %v", i, err)
+						}
+						if wantAlt := altFor.Post.Commitment(altFor.B.ProtocolVersion); ab.B.GlobalStateRoot != nil && !ab.B.GlobalStateRoot.Equal(&wantAlt) {
+							c.Violation("simulate-root-"+n.Backend(), "Simulate (%s) computed root %s for the abandoned candidate of block %d, reference %s, diff %s",
+								n.Backend(), ab.B.GlobalStateRoot.String(), i, wantAlt.String(), diffFp(altFor.SU.StateDiff))
+						}
 					}
 					fb := cloneForFinalise(b, n)
 					sim, err := n.BC.Simulate(cloneForFinalise(b, n).B, cloneForFinalise(b, n).SU, b.Classes, nil)
